@@ -30,7 +30,8 @@ func execNetworkSimplex(g *graph.DGraph, params graph.Params) {
 	// todo: if there are flat edges, dot adds auxiliary edges
 	aux := p.auxiliaryGraph(g)
 
-	phase2.NetworkSimplex.Process(
+	// only the layer numbers are needed: they are the x coordinates
+	phase2.NetworkSimplex.AssignLayers(
 		aux,
 		graph.Params{
 			NetworkSimplexThoroughness:  params.NetworkSimplexThoroughness,
